@@ -35,6 +35,9 @@ def supported(case):
             fin += 1
             if fin > 1:
                 return False
+        elif op[0] == "cancel":
+            if fin:
+                return False
         elif op[0] in ("wait", "wait_all", "settle", "sleep"):
             if fin and op[0] != "wait_all":
                 return False
@@ -57,15 +60,27 @@ def constants(case, events):
     nsp = max([int(e["x"][1:]) for e in events if e["a"] == "spawn"] + [1])
     sw = json.load(open(os.path.join(tlc.SPECS, "code_switches.json")))
     return dict(pids=["p%d" % i for i in range(1, nsp + 1)], maxw=maxw, kinds=kinds, qsize=2 * maxw + 1,
-                maxcrash=sum(1 for e in events if e["w"] == "E"), maxtimeout=sum(1 for e in events if e["o"] == "timeout" or e["a"] == "cq.r.poll0") + 1,
+                maxcrash=sum(1 for e in events if e["w"] == "E"), maxcancel=sum(1 for e in events if e["w"] == "C"), maxtimeout=sum(1 for e in events if e["o"] == "timeout" or e["a"] == "cq.r.poll0") + 1,
                 hastimeout=scn["exec"].get("timeout") is not None, fop=fop,
                 switches={k: sw[k] for k in ("WakeAfterSpawn", "KeepRefs", "SafeFail", "CancelWakes", "JoinWatches", "CloseReaderOnKill")})
 
 
-def project(decisions, obs=()):
+def project(decisions, obs=(), scn=None):
     """E-SIM decisions -> key events (renaming + dropping only); workers are named p1, p2, ... in spawn order"""
     ev = []
     nspawn = 0
+    # successful cancel() calls, in the order each user thread made them (the k-th `fut.cancel` operation of a thread is its
+    # k-th `cancel` observation); task ids are numbered in submission order as in the specification
+    cancels = {}
+    for e in obs:
+        if e.get("ev") == "cancel":
+            cancels.setdefault(e["u"], []).append(e)
+    index = {}
+    if scn:
+        for op in list(scn["users"].values())[0]:
+            if op[0] == "submit":
+                index[op[1]] = len(index) + 1
+    already = set()
     order = [e["pid"] for e in obs if e.get("ev") == "spawn"]
     pname = {str(pid): "p%d" % (i + 1) for i, pid in enumerate(order)}
     for th, lab, out in decisions:
@@ -81,7 +96,7 @@ def project(decisions, obs=()):
         if base == "ENV":
             m = re.match(r"^crash W(\d+) at ", lab)
             if m:
-                ev.append(dict(w="E", a="crash", o="ok", x=pname.get(m.group(1), "p?")))
+                ev.append(dict(w="E", a="crash", o="ok", x=pname.get(m.group(1), "p?"), t=0))
             continue
         if base.startswith("W") and base[1:].isdigit():
             role, w = "W", pname.get(base[1:], "p?")
@@ -93,12 +108,20 @@ def project(decisions, obs=()):
             role, w = "U", "U"
         else:
             continue
+        if role == "U" and lab == "fut.cancel":
+            c = cancels.get(base, [])
+            if c:
+                c0 = c.pop(0)
+                if c0["res"] and c0["t"] not in already and c0["t"] in index:
+                    already.add(c0["t"])
+                    ev.append(dict(w="C", a="cancel", o="ok", x="", t=index[c0["t"]]))
+            continue
         if lab == "spawn":
             nspawn += 1
             x = "p%d" % nspawn
         if lab not in KEY[role]:
             continue
-        ev.append(dict(w=w, a=lab, o=out if out in ("ok", "timeout") else "ok", x=x))
+        ev.append(dict(w=w, a=lab, o=out if out in ("ok", "timeout") else "ok", x=x, t=0))
     return ev
 
 
@@ -111,13 +134,13 @@ def write_instance(d, case, events):
     os.makedirs(d, exist_ok=True)
     for f in ("LokyExecutor.tla", "Trace_LokyExecutor.tla"):
         shutil.copy(os.path.join(tlc.SPECS, f), d)
-    recs = ",\n  ".join('[w |-> "%s", a |-> "%s", o |-> "%s", x |-> "%s"]' % (e["w"], e["a"], e["o"], e["x"]) for e in events)
+    recs = ",\n  ".join('[w |-> "%s", a |-> "%s", o |-> "%s", x |-> "%s", t |-> %d]' % (e["w"], e["a"], e["o"], e["x"], e.get("t", 0)) for e in events)
     kinds = ", ".join('"%s"' % k for k in c["kinds"])
     with open(os.path.join(d, "TraceLEData.tla"), "w") as fh:
         fh.write("---- MODULE TraceLEData ----\nEXTENDS Sequences\nTrace == <<\n  %s\n>>\nTraceKind == <<%s>>\n====\n" % (recs, kinds))
     lines = ["SPECIFICATION TraceSpec", "CONSTANTS", "  Pids = {%s}" % ", ".join('"%s"' % p for p in c["pids"]), "  MaxW = %d" % c["maxw"],
              "  K = %d" % len(c["kinds"]), "  Kind <- TraceKind", "  QSize = %d" % c["qsize"], "  MaxCrash = %d" % c["maxcrash"],
-             "  MaxTimeout = %d" % c["maxtimeout"], "  MaxCancel = 0", "  HasTimeout = %s" % ("TRUE" if c["hastimeout"] else "FALSE"),
+             "  MaxTimeout = %d" % c["maxtimeout"], "  MaxCancel = %d" % c["maxcancel"], "  HasTimeout = %s" % ("TRUE" if c["hastimeout"] else "FALSE"),
              '  FinalOps = {"%s"}' % c["fop"], "  InitFails = {}"]
     lines += ["  %s = %s" % kv for kv in c["switches"].items()]
     lines += ["CONSTRAINT Track", "INVARIANT NotAccepted", "POSTCONDITION Report", "CHECK_DEADLOCK FALSE"]
@@ -127,7 +150,7 @@ def write_instance(d, case, events):
 
 
 def validate_one(d, case, out, timeout=600):
-    events = project(out["decisions"], out["trace"])
+    events = project(out["decisions"], out["trace"], case["scn"])
     c = write_instance(d, case, events)
     try:
         res = tlc.check(d, "Trace_LokyExecutor", "trace.cfg", workers=1, timeout=timeout, coverage=False, heap="3g")
